@@ -26,11 +26,12 @@ CONFIG = dict(
                    'before, every provider not before transitively requires an output of the consumer), C10_unambiguous and C10_errors (at most one '
                    'provider per entity, all map orders, all name formattings: outcome decided completely - Unsatisfied iff a requirement has no '
                    'provider, SortFailure iff a cyclic requirement, otherwise an order with every item strictly after all its providers, a permutation), '
-                   'C10_deploy_closure (DeployItem adds exactly the least set closed under enabled providers/namesakes of requirements). '
+                   'C10_deploy_closure + C10_deploy_total (DeployItem terminates and adds exactly the least set closed under enabled providers/namesakes of requirements). '
                    'The chained (two-provider) case is decided per run by the proved-sound validator: partial.',
         level_note='Partial: no general theorem for the chaining block; C10_chained_{order,lost_item,panic}_refuted prove that the full statement is '
-                   'false of the current code outside the TreeDiff/RenameAnalysis shape. Modelled, not verified: the Go code (tie = replay); '
-                   'termination fuel of the deploy model is not proved sufficient (the driver reports an out-of-fuel model as a mismatch).',
+                   'false of the current code in two input regions decided by the extracted region_of (tags [chained:no-provider-requires-entity], '
+                   '[chained:item-provides-two-ambiguous-entities]: known findings C10-K1/K2); every other region, all leaf subsets and all one-provider sets are clean. Modelled, not verified: the Go code (tie = replay); '
+                   'fuel of BreadthSort/Toposort in the chained case is not proved sufficient (an out-of-fuel model outcome is reported as a mismatch; the deploy fuel is: C10_deploy_total).',
         technique='Coq proof over an executable model + extracted validator on implementation outputs + exhaustive replay of the finite leaf x feature scope',
         search_seconds=120,
     )
